@@ -36,10 +36,15 @@ TextOf(s) == IF s = <<>> THEN "" ELSE Head(s).content \o "\n" \o TextOf(Tail(s))
 
 IdsOf(ds) == {ds[i].id : i \in 1..Len(ds)}
 PrioIds(ds) == {ds[i].id : i \in {j \in 1..Len(ds) : ds[j].prio}}
-SortIds(S) == SortSeq(SetToSeq(S), LAMBDA a, b : Rank(a) < Rank(b))
+(* the order is a parameter: IdOrder for the enumerated universe, or the list of the distinct IDs of a real
+   generator's declaration list, put in Go string order by the harness (TraceDecls, records marked real) *)
+RankIn(ord, id) == CHOOSE i \in 1..Len(ord) : ord[i] = id
+SortIdsIn(ord, S) == SortSeq(SetToSeq(S), LAMBDA a, b : RankIn(ord, a) < RankIn(ord, b))
+SortIds(S) == SortIdsIn(IdOrder, S)
 
 (* distinct IDs: the priority group in increasing ID order, then the others in increasing ID order *)
-CanonicalIds(ds) == SortIds(PrioIds(ds)) \o SortIds(IdsOf(ds) \ PrioIds(ds))
+CanonicalIdsIn(ord, ds) == SortIdsIn(ord, PrioIds(ds)) \o SortIdsIn(ord, IdsOf(ds) \ PrioIds(ds))
+CanonicalIds(ds) == CanonicalIdsIn(IdOrder, ds)
 
 (* contents an ID may legitimately show: those carried by a declaration of the group it is emitted in *)
 ContentsFor(ds, id) ==
@@ -55,5 +60,6 @@ TextsFor(ds, ids) ==   \* every text allowed for the canonical ID sequence `ids`
     ELSE {c \o "\n" \o rest : c \in ContentsFor(ds, Head(ids)), rest \in TextsFor(ds, Tail(ids))}
 
 AllowedTexts(ds) == TextsFor(ds, CanonicalIds(ds))
+AllowedTextsIn(ord, ds) == TextsFor(ds, CanonicalIdsIn(ord, ds))
 
 =============================================================================
